@@ -82,26 +82,31 @@ def observable(events, kinds=("S", "D")):
 def compare(host, fw, strict_kinds=True):
     """first difference between two event lists, or None.  Delays are compared up to the device's whole-millisecond rounding (< 1 ms per
     delay): a delay under one millisecond on one side may have no counterpart on the other (it rounded to nothing there)"""
-    def small_delay(e):
-        if e.startswith("D:"):
-            try:
-                return float(e[2:]) < 1.0
-            except ValueError:
-                return False
-        return False
-    i = j = 0
-    while i < len(host) or j < len(fw):
-        h = host[i] if i < len(host) else "<end>"
-        f = fw[j] if j < len(fw) else "<end>"
-        if same_line(h, f, strict_kinds=strict_kinds):
-            i += 1
-            j += 1
-        elif small_delay(h) and not (f.startswith("D:") and same_line(h, f)):
-            i += 1
-        elif small_delay(f):
-            j += 1
-        else:
-            return {"index": i, "cpython": h, "firmware": f}
+    def blocks(ev):
+        """[(event | None, [delays that follow it])]: consecutive delays form one block between two other events"""
+        out, cur = [(None, [])], None
+        for e in ev:
+            if e.startswith("D:"):
+                try:
+                    out[-1][1].append(float(e[2:]))
+                    continue
+                except ValueError:
+                    pass
+            out.append((e, []))
+        return out
+    hb, fb = blocks(host), blocks(fw)
+    for k in range(max(len(hb), len(fb))):
+        he, hd = hb[k] if k < len(hb) else ("<end>", [])
+        fe, fd = fb[k] if k < len(fb) else ("<end>", [])
+        if he != fe and not (he is not None and fe is not None and same_line(he, fe, strict_kinds=strict_kinds)):
+            return {"index": k, "cpython": he, "firmware": fe}
+        # every single delay may differ by less than a millisecond (and a sub-millisecond delay may vanish): the block's total agrees to
+        # within that allowance
+        n = max(len(hd), len(fd))
+        must, may, got = sum(1 for d in hd if d >= 1.0), sum(1 for d in hd if d >= 0.5), sum(1 for d in fd if d > 0)
+        if not (must <= got <= may) or (abs(sum(hd) - sum(fd)) >= max(n, 1) * 1.0 and not (n == 0)):
+            return {"index": k, "after": he, "cpython": "delays " + " ".join(f"{d:g}" for d in hd[:8]) + (" ..." if len(hd) > 8 else "") + f" (total {sum(hd):g} ms)",
+                    "firmware": "delays " + " ".join(f"{d:g}" for d in fd[:8]) + (" ..." if len(fd) > 8 else "") + f" (total {sum(fd):g} ms)"}
     return None
 
 
